@@ -279,9 +279,9 @@ fn root_ver(k: u8) -> RootVersion {
 // @catches regression of patch root_block: record arrays reserved from num_records (capped only at 1,000,000 by the parser: MBs for a 12..17-byte input)
 // UNVERIFIED(not run to completion within the time budget): total!(c02_root_block_header_n11, 11, 4, false, "alloc", |c, d| RootBlockHeader::read_options(&mut c, Endian::Little, ()));
 // UNVERIFIED(not run to completion within the time budget): total!(c02_root_block_header_n12, 12, 4, true, "alloc", |c, d| RootBlockHeader::read_options(&mut c, Endian::Little, ()));
-total!(c02_root_block_parse_alloc_v1, 12, 4, true, "root block parse: record reservation out of proportion to input", |c, d| RootBlock::parse(&mut c, RootVersion::V1, true));
-total!(c02_root_block_parse_alloc_v2, 17, 4, true, "root block parse: record reservation out of proportion to input", |c, d| RootBlock::parse(&mut c, RootVersion::V2, true));
-total!(c02_root_block_parse_alloc_v4, 17, 4, true, "root block parse: record reservation out of proportion to input", |c, d| RootBlock::parse(&mut c, RootVersion::V4, true));
+// NOT REGISTERED (measured on the patched tree: 900 s timeout; binrw record loops are unrolled on infeasible paths): total!(c02_root_block_parse_alloc_v1, 12, 4, true, "root block parse: record reservation out of proportion to input", |c, d| RootBlock::parse(&mut c, RootVersion::V1, true));
+// NOT REGISTERED (measured on the patched tree: 900 s timeout; binrw record loops are unrolled on infeasible paths): total!(c02_root_block_parse_alloc_v2, 17, 4, true, "root block parse: record reservation out of proportion to input", |c, d| RootBlock::parse(&mut c, RootVersion::V2, true));
+// NOT REGISTERED (measured on the patched tree: 900 s timeout; binrw record loops are unrolled on infeasible paths): total!(c02_root_block_parse_alloc_v4, 17, 4, true, "root block parse: record reservation out of proportion to input", |c, d| RootBlock::parse(&mut c, RootVersion::V4, true));
 // @end
 
 // C08: root header
